@@ -48,6 +48,22 @@ APPLICATION_CONTEXT_NAME = uid.UID('1.2.840.10008.3.1.1.1')
 IMPLEMENTATION_UID = uid.UID('1.2.826.0.1.3680043.8.498.1.1.155105445218102811803000')
 
 
+def negotiated_max_length(own, peer):
+    """Maximum P-DATA-TF PDU length to use for sending, given own and peer's maximum lengths.
+
+    A maximum length of 0 means "no limit" (PS3.8 D.1), so it never restricts the other value.
+
+    :param own: own (configured) maximum length
+    :param peer: maximum length received from the peer
+    :return: the smaller of the two limits, 0 if neither side has a limit
+    """
+    if not own:
+        return peer
+    if not peer:
+        return own
+    return min(own, peer)
+
+
 def build_pres_context_def_list(context_def_list):
     """Builds a list of Presntation Context Items
 
@@ -199,8 +215,8 @@ class AssociationAcceptor(socketserver.StreamRequestHandler, Association):
         acceptable_pr_contexts"""
         user_items = assoc_req.variable_items[-1]
         max_pdu_sub_item = user_items.user_data[0]
-        if self.max_pdu_length > max_pdu_sub_item.maximum_length_received:
-            self.max_pdu_length = max_pdu_sub_item.maximum_length_received
+        self.max_pdu_length = negotiated_max_length(
+            self.max_pdu_length, max_pdu_sub_item.maximum_length_received)
         max_pdu_sub_item.maximum_length_received = self.max_pdu_length
 
         # analyse proposed presentation contexts
@@ -388,9 +404,8 @@ class AssociationRequester(Association):
         # Get maximum pdu length from answer
         user_data = response.variable_items[-1].user_data
         try:
-            max_pdu_length = user_data[0].maximum_length_received
-            if max_pdu_length and self.max_pdu_length > max_pdu_length:
-                self.max_pdu_length = max_pdu_length
+            self.max_pdu_length = negotiated_max_length(
+                self.max_pdu_length, user_data[0].maximum_length_received)
         except IndexError:
             pass
 
